@@ -9,7 +9,7 @@ Two case families:
   op="api":    a sequence of Metrics calls (trace / matchRanks / registerRank / addUse / incIter /
                endIter / consumeTrace / endCollect) replayed on the real class at several thresholds.
 """
-import os, random, itertools, shutil, tempfile, glob
+import os, random, itertools, shutil, tempfile, glob, json
 from harness import common as H
 
 PROP = "C16"
@@ -18,7 +18,7 @@ RULE = ("kernel cases = (loop nest of depth 1-3: per level a source {fiber, a&b,
         "pre-populated outputs, declared trace set, thresholds subset of {2,3,5,1000}, default 0 or 7); small scope: "
         "every depth-1 form x all pairs of leaf fibers over 2 (quick) / 3 (thorough) coordinates x {absent, explicit "
         "default, value} x 4 trace sets, depth-2/3 templates (SpMV, reductions, Gustavson, inner/outer product, "
-        "copy, dense iterShapeRef() outer loops) on seeded random trees, populate destination ranks in format C or U; api cases = seeded random Metrics call sequences (nest-shaped with "
+        "copy, dense iterShapeRef() outer loops) on seeded random trees, populate destination ranks in format C or U, loop ranks with flattened 2-tuple coordinates (associateShape), lazy operands built before beginCollect in every other case, a lazy fiber built inside and iterated after the collection; api cases = seeded random Metrics call sequences (nest-shaped with "
         "perturbations: late/duplicate declarations, double matches, uses on unregistered ranks, interleaved "
         "consumeTrace). non-trivial = a traced file with >= 2 data rows (kernel) / a flush or a consume happened (api)")
 
@@ -49,8 +49,11 @@ def _src(kind, x, y=None, **kw):
     return d
 
 
-def _level(rank, src, pop=False):
-    return {"rank": rank, "src": src, "pop": pop}
+def _level(rank, src, pop=False, tuple_k=None):
+    lv = {"rank": rank, "src": src, "pop": pop}
+    if tuple_k:
+        lv["tuple"] = tuple_k      # the rank holds flattened 2-tuples (c // k, c % k), announced by associateShape
+    return lv
 
 
 def op_levels(levels, x):
@@ -135,8 +138,11 @@ def finish_case(levels, ops, z, traced, thresholds, dflt=0, prematch=True):
             # before the nest (prematch), it takes effect before the first use of the source rank
             matches.append([s["srcRank"], lv["rank"]])
             s["own"] = False
+    # lazy operands (a & b, projections, z << ...) are built before beginCollect() in every other case
+    early = (len(json.dumps([levels, ops, z])) % 2) == 0
     return {"prop": PROP, "op": "kernel", "dflt": dflt, "levels": levels, "ops": ops, "z": z,
-            "traced": traced, "matches": matches, "prematch": bool(prematch), "thresholds": thresholds}
+            "traced": traced, "matches": matches, "prematch": bool(prematch), "thresholds": thresholds,
+            "early": early}
 
 
 def _mk_ops(levels, trees):
@@ -180,6 +186,9 @@ TEMPLATES = {
     "dense-outer-and": lambda: [_level("M", _src("dense", 0, shape=0)), _level("K", _src("and", 0, 1))],
     "dense-outer-pop": lambda: [_level("M", _src("dense", 0, shape=0)), _level("K", _src("fiber", 0), True)],
     "dense3": lambda: [_level("M", _src("dense", 0, shape=0)), _level("K", _src("dense", 0, shape=0)), _level("N", _src("fiber", 0))],
+    "flat-outer": lambda: [_level("M", _src("fiber", 0), tuple_k=2), _level("K", _src("fiber", 0))],
+    "flat-outer-and": lambda: [_level("M", _src("and", 0, 1), tuple_k=3), _level("K", _src("fiber", 0))],
+    "flat-outer3": lambda: [_level("M", _src("fiber", 0), tuple_k=2), _level("K", _src("and", 0, 1), tuple_k=2), _level("N", _src("fiber", 1), True)],
     "lf3": lambda: [_level("M", _src("fiber", 0)), _level("K", _src("lf", 0, 1)), _level("N", _src("fiber", 1), True)],
 }
 
@@ -217,6 +226,10 @@ def _rand_case(rng, levels, n, dflt, tmode=None, zmode=None, prematch=True, thre
         else:
             zt = H.gen_tree(rng, dz, n + 3, pool, dflt)
         z = {"d": dz, "tree": zt, "shape": shape}
+    for lv in levels:
+        if (not lv["pop"] and lv["src"]["kind"] in ("fiber", "and", "lf") and "tuple" not in lv
+                and rng.random() < 0.15):
+            lv["tuple"] = rng.choice([2, 3])
     tmode = tmode or rng.choice(TRACE_SETS + ["all", "random", "random"])
     if tmode == "random":
         cand = candidate_keys(levels)
@@ -429,8 +442,22 @@ def _force_end(ft):
     M.num_cached_uses = 1000
 
 
-def _build_tensor(ft, ids, tree, dflt, shape=None):
-    fiber = H.build_fiber(tree, len(ids), dflt)
+def _build_fiber_t(ft, tree, depth, dflt, ks):
+    """like H.build_fiber, but ranks with ks[i] = k hold the 2-tuple (c // k, c % k) instead of c"""
+    k = ks[0]
+    coords = [((c // k, c % k) if k else c) for c, _ in tree]
+    if depth == 1:
+        return ft.Fiber(coords, [v for _, v in tree], default=dflt)
+    return ft.Fiber(coords, [_build_fiber_t(ft, sub, depth - 1, dflt, ks[1:]) for _, sub in tree], default=dflt)
+
+
+def _build_tensor(ft, ids, tree, dflt, shape=None, ks=None):
+    if ks and any(ks):
+        fiber = _build_fiber_t(ft, tree, len(ids), dflt, ks)
+        if shape is not None:
+            shape = [((s + k - 1) // k, k) if k else s for s, k in zip(shape, ks)]
+    else:
+        fiber = H.build_fiber(tree, len(ids), dflt)
     kw = {"rank_ids": ids, "fiber": fiber, "default": dflt}
     if shape is not None:
         kw["shape"] = shape
@@ -480,8 +507,8 @@ class _DestSpy:
                 self.bad.append([rank, ty, coord, pos, coords])
 
 
-def _exec_nest(ft, levels, ops, z, i, spy=None):
-    lv = levels[i]
+def _build_expr(ft, lv, ops, z):
+    """the iterable of one `for` of the nest"""
     s = lv["src"]
     kind = s["kind"]
     if kind == "fiber":
@@ -496,11 +523,35 @@ def _exec_nest(ft, levels, ops, z, i, spy=None):
         off = s["off"]
         interval = None if s["lo"] is None else (s["lo"], s["hi"])
         expr = ops[s["x"]].project(trans_fn=lambda c, o=off: c + o, interval=interval, rank_id=lv["rank"])
+    if lv["pop"]:
+        expr = z << expr
+    return expr
+
+
+def _prebuildable(levels):
+    """levels whose iterable only involves operand ROOTS (so that it can be built ahead of the nest, even
+    before beginCollect, and iterated every time the level runs)"""
+    out = []
+    zl = z_levels(levels)
+    for i, lv in enumerate(levels):
+        s = lv["src"]
+        if s["kind"] == "dense":
+            continue            # a generator: single use
+        xs = [s["x"]] + ([s["y"]] if "y" in s else [])
+        if all(op_levels(levels, x)[0] == i for x in xs) and (not lv["pop"] or zl[0] == i):
+            out.append(i)
+    return out
+
+
+def _exec_nest(ft, levels, ops, z, i, spy=None, pre=None):
+    lv = levels[i]
+    s = lv["src"]
+    kind = s["kind"]
+    expr = pre[i] if pre and i in pre else _build_expr(ft, lv, ops, z)
     watch = None
     if lv["pop"]:
         if spy is not None:
             watch = spy.begin(lv["rank"], z)
-        expr = z << expr
     last = i + 1 == len(levels)
     first = None
     for _c, p in expr:
@@ -522,7 +573,7 @@ def _exec_nest(ft, levels, ops, z, i, spy=None):
                         prod = prod * o.value
                 z2 += prod
         else:
-            _exec_nest(ft, levels, ops2, z2, i + 1, spy)
+            _exec_nest(ft, levels, ops2, z2, i + 1, spy, pre)
     if watch is not None:
         spy.end(lv["rank"], watch[0], watch[1], first, not lv.get("zU"))
 
@@ -535,7 +586,8 @@ def _run_kernel_once(ft, case, ncu, consumable):
         if o["d"] == 0:
             ops.append(None)
         else:
-            ops.append(_build_tensor(ft, op_rank_ids(levels, x), o["tree"], dflt, shape=o.get("shape")).getRoot())
+            ks = [levels[i].get("tuple") for i in op_levels(levels, x)]
+            ops.append(_build_tensor(ft, op_rank_ids(levels, x), o["tree"], dflt, shape=o.get("shape"), ks=ks).getRoot())
     z = None
     if case["z"] is not None:
         zr = [levels[i]["rank"] for i in z_levels(levels)]
@@ -550,17 +602,27 @@ def _run_kernel_once(ft, case, ncu, consumable):
         os.remove(f)
     err, mem = None, {}
     dest = (0, [])
+    late, late_ok = None, True
     try:
+        pre = None
+        if case.get("early"):
+            # lazy fibers built OUTSIDE the collection bracket, consumed inside it
+            pre = {i: _build_expr(ft, levels[i], ops, z) for i in _prebuildable(levels)}
         M.beginCollect(prefix)
         M.setNumCachedUses(ncu)
+        for lv in levels:
+            if lv.get("tuple"):
+                M.associateShape(lv["rank"], (1 << 20, lv["tuple"]))
         for r, t in case["traced"]:
             M.trace(r, t, consumable=consumable)
         if case.get("prematch", True):
             for a, b in case["matches"]:
                 M.matchRanks(a, b)
         with _DestSpy(ft) as spy:
-            _exec_nest(ft, levels, ops, z, 0, spy)
+            _exec_nest(ft, levels, ops, z, 0, spy, pre)
         dest = (spy.checked, spy.bad[:2])
+        if not case.get("early") and levels[0]["src"]["kind"] != "dense":
+            late = _build_expr(ft, levels[0], ops, z)     # built inside the bracket, consumed after it
         if consumable:
             for r, t in case["traced"]:
                 mem[_kstr([r, t])] = _mem_lines(M.consumeTrace(r, t))
@@ -576,21 +638,35 @@ def _run_kernel_once(ft, case, ncu, consumable):
         for r, t in case["traced"]:
             p = f"{prefix}-{r}-{t}.csv"
             files[_kstr([r, t])] = _parse_csv(p) if os.path.exists(p) else None
+    zsnap = H.snapshot(z) if z is not None else None
+    if late is not None and err is None:
+        # a lazy fiber built during collection and iterated after endCollect(): no metrics activity at all
+        before = {f: open(f).read() for f in glob.glob(prefix + "-*.csv")}
+        try:
+            for _ in late:
+                pass
+            late_ok = before == {f: open(f).read() for f in glob.glob(prefix + "-*.csv")} and not M.isCollecting()
+        except BaseException as e:
+            if isinstance(e, (KeyboardInterrupt, SystemExit)):
+                raise
+            late_ok = False
+        _force_end(ft)
     for f in glob.glob(prefix + "-*.csv"):
         os.remove(f)
-    return files, mem, err, (H.snapshot(z) if z is not None else None), dest
+    return files, mem, err, zsnap, (dest[0], dest[1], late_ok)
 
 
 def _run_kernel(ft, case):
     impl = {"files": {}, "mem": None, "err": None}
     outs = []
-    dest_checked, dest_bad = 0, []
+    dest_checked, dest_bad, late_ok = 0, [], True
     for n in case["thresholds"]:
         files, _, err, zs, dest = _run_kernel_once(ft, case, n, False)
         impl["files"][str(n)] = files
         outs.append(zs)
         dest_checked += dest[0]
         dest_bad += dest[1]
+        late_ok = late_ok and dest[2]
         if err and not impl["err"]:
             impl["err"] = err
     _, mem, err, zs, _ = _run_kernel_once(ft, case, 1000, True)
@@ -601,7 +677,8 @@ def _run_kernel(ft, case):
     case["impl"] = impl
     # the result of the nest does not depend on the threshold / trace storage either
     case["side"] = {"output_same_for_all_thresholds": all(o == outs[0] for o in outs),
-                    "dest_rows_address_element" + (": " + str(dest_bad[0]) if dest_bad else ""): not dest_bad}
+                    "dest_rows_address_element" + (": " + str(dest_bad[0]) if dest_bad else ""): not dest_bad,
+                    "lazy_fiber_iterated_after_endCollect_is_silent": late_ok}
     impl["dest_rows_checked"] = dest_checked
     return case
 
